@@ -73,6 +73,47 @@ theorem uniq_map {α β} [DecidableEq α] [DecidableEq β] (f : α → β) (l : 
     (h : ∀ a ∈ l, ∀ b ∈ l, f a = f b → a = b) : uniq (l.map f) = (uniq l).map f := by
   rw [uniq_eq_dedup, uniq_eq_dedup, dedup_map f l h]
 
+theorem dedup_of_nodup {α} [DecidableEq α] : ∀ {l : List α}, l.Nodup → dedup l = l
+  | [], _ => rfl
+  | x :: xs, h => by
+    simp only [List.nodup_cons] at h
+    simp only [dedup, dedup_of_nodup h.2, List.cons.injEq, true_and]
+    apply List.filter_eq_self.mpr
+    intro y hy
+    have : y ≠ x := fun e => h.1 (e ▸ hy)
+    simp [this]
+
+theorem uniq_of_nodup {α} [DecidableEq α] {l : List α} (h : l.Nodup) : uniq l = l := by
+  rw [uniq_eq_dedup, dedup_of_nodup h]
+
+theorem uniqAcc_append {α} [DecidableEq α] : ∀ (a b acc : List α),
+    uniqAcc acc (a ++ b) = uniqAcc (uniqAcc acc a) b
+  | [], _, _ => rfl
+  | x :: xs, b, acc => by
+    simp only [List.cons_append, uniqAcc]
+    split <;> exact uniqAcc_append xs b _
+
+theorem uniq_append {α} [DecidableEq α] (a b : List α) : uniq (a ++ b) = uniqAcc (uniq a) b :=
+  uniqAcc_append a b []
+
+theorem uniqAcc_uniq {α} [DecidableEq α] (acc l : List α) : uniqAcc acc (uniq l) = uniqAcc acc l := by
+  rw [uniqAcc_eq, uniqAcc_eq, uniq_eq_dedup, dedup_of_nodup (nodup_dedup l)]
+
+theorem mem_uniqAcc {α} [DecidableEq α] {a : α} {acc l : List α} :
+    a ∈ uniqAcc acc l ↔ a ∈ acc ∨ a ∈ l := by
+  rw [uniqAcc_eq]
+  simp only [List.mem_append, List.mem_filter, mem_dedup, decide_eq_true_eq]
+  by_cases h : a ∈ acc <;> simp [h]
+
+theorem nodup_uniqAcc {α} [DecidableEq α] {acc : List α} (l : List α) (h : acc.Nodup) :
+    (uniqAcc acc l).Nodup := by
+  rw [uniqAcc_eq, List.nodup_append]
+  refine ⟨h, (nodup_dedup l).filter _, ?_⟩
+  intro a ha b hb e
+  subst e
+  simp only [List.mem_filter, decide_eq_true_eq] at hb
+  exact hb.2 ha
+
 /-! ## name allocation is fresh -/
 
 theorem allocFrom_spec (used : List Name) (r : Root) : ∀ (fuel k : Nat),
@@ -139,7 +180,7 @@ theorem lookupTag_mem {l : List (Text × Name)} {t : Text} {n : Name} (h : looku
     · rename_i e; cases h; subst e; simp
     · exact List.mem_cons_of_mem _ (ih h)
 
-theorem reg_inv {st : SymTab} (p : Text × Root) (h : Inv st) : Inv (reg st p) := by
+theorem reg_inv {st : SymTab} (p : Text × Root) (k : SymKind) (h : Inv st) : Inv (reg st p k) := by
   unfold reg
   split
   · exact h
@@ -159,14 +200,14 @@ theorem reg_inv {st : SymTab} (p : Text × Root) (h : Inv st) : Inv (reg st p) :
       · simp only [List.mem_singleton] at hq
         subst hq; simp
 
-theorem reg_keeps {st : SymTab} (p : Text × Root) {t : Text} {n : Name}
-    (h : lookupTag st.tags t = some n) : lookupTag (reg st p).tags t = some n := by
+theorem reg_keeps {st : SymTab} (p : Text × Root) (k : SymKind) {t : Text} {n : Name}
+    (h : lookupTag st.tags t = some n) : lookupTag (reg st p k).tags t = some n := by
   unfold reg
   split
   · exact h
   · simp only [lookupTag_append, h]
 
-theorem reg_registers (st : SymTab) (p : Text × Root) : Registered (reg st p) p.1 := by
+theorem reg_registers (st : SymTab) (p : Text × Root) (k : SymKind) : Registered (reg st p k) p.1 := by
   unfold Registered reg
   split
   · rename_i n hn; simp [hn]
@@ -174,27 +215,49 @@ theorem reg_registers (st : SymTab) (p : Text × Root) : Registered (reg st p) p
     simp only [lookupTag_append, hn]
     simp
 
-theorem foldl_reg_inv : ∀ (l : List (Text × Root)) (st : SymTab), Inv st → Inv (l.foldl reg st)
-  | [], _, h => h
-  | p :: rest, st, h => foldl_reg_inv rest (reg st p) (reg_inv p h)
+theorem regR_some {st st' : SymTab} {q : (Text × Root) × Role} (h : regR st q = some st') :
+    st' = reg st q.1 (kindFor q.2) := by
+  unfold regR at h
+  split at h
+  · cases h; rfl
+  · cases h
 
-theorem foldl_reg_keeps : ∀ (l : List (Text × Root)) (st : SymTab) {t : Text} {n : Name},
-    lookupTag st.tags t = some n → lookupTag (l.foldl reg st).tags t = some n
-  | [], _, _, _, h => h
-  | p :: rest, st, _, _, h => foldl_reg_keeps rest (reg st p) (reg_keeps p h)
+theorem regAll_inv : ∀ (l : List ((Text × Root) × Role)) (st st' : SymTab),
+    regAll st l = some st' → Inv st → Inv st'
+  | [], st, st', h, hi => by simp only [regAll, Option.some.injEq] at h; exact h ▸ hi
+  | q :: rest, st, st', h, hi => by
+    simp only [regAll] at h
+    split at h
+    · cases h
+    · rename_i st1 h1
+      exact regAll_inv rest st1 st' h (regR_some h1 ▸ reg_inv _ _ hi)
 
-theorem foldl_reg_registers : ∀ (l : List (Text × Root)) (st : SymTab), ∀ p ∈ l,
-    Registered (l.foldl reg st) p.1
-  | [], _, p, hp => by simp at hp
-  | q :: rest, st, p, hp => by
-    rcases List.mem_cons.mp hp with e | hp
-    · subst e
-      have := reg_registers st p
-      unfold Registered at this ⊢
-      obtain ⟨n, hn⟩ := Option.isSome_iff_exists.mp this
-      simp only [List.foldl_cons]
-      rw [foldl_reg_keeps rest (reg st p) hn]; rfl
-    · exact foldl_reg_registers rest (reg st q) p hp
+theorem regAll_keeps : ∀ (l : List ((Text × Root) × Role)) (st st' : SymTab) {t : Text} {n : Name},
+    regAll st l = some st' → lookupTag st.tags t = some n → lookupTag st'.tags t = some n
+  | [], st, st', _, _, h, hl => by simp only [regAll, Option.some.injEq] at h; exact h ▸ hl
+  | q :: rest, st, st', _, _, h, hl => by
+    simp only [regAll] at h
+    split at h
+    · cases h
+    · rename_i st1 h1
+      exact regAll_keeps rest st1 st' h (regR_some h1 ▸ reg_keeps _ _ hl)
+
+theorem regAll_registers : ∀ (l : List ((Text × Root) × Role)) (st st' : SymTab),
+    regAll st l = some st' → ∀ q ∈ l, Registered st' q.1.1
+  | [], _, _, _, q, hq => by simp at hq
+  | q0 :: rest, st, st', h, q, hq => by
+    simp only [regAll] at h
+    split at h
+    · cases h
+    · rename_i st1 h1
+      rcases List.mem_cons.mp hq with e | hq
+      · subst e
+        have := reg_registers st q.1 (kindFor q.2)
+        rw [← regR_some h1] at this
+        unfold Registered at this ⊢
+        obtain ⟨n, hn⟩ := Option.isSome_iff_exists.mp this
+        rw [regAll_keeps rest st1 st' h hn]; rfl
+      · exact regAll_registers rest st1 st' h q hq
 
 theorem tag_unique : ∀ {l : List (Text × Name)} {a b : Text} {n : Name},
     (l.map Prod.snd).Nodup → (a, n) ∈ l → (b, n) ∈ l → a = b
